@@ -188,7 +188,7 @@ func NewOperation(s *specification.Operation, components Componenter, cfg Config
 					if !isRequired {
 						tp = NewOptionalType(schema, cfg)
 					}
-					o.Params.Headers.Add(Title(sr.Scheme.Name), &HeaderParameter{
+					o.Params.Headers.Add(sr.Scheme.Name, &HeaderParameter{
 						Name:        sr.Scheme.Name,
 						FieldName:   Title(sr.Scheme.Name),
 						Description: sr.Scheme.BearerFormat,
